@@ -610,6 +610,9 @@ function visitors.Annotation(context, node, opts)
     symbol.codename = codename
     type:set_codename(codename)
   elseif name == 'packed' or name == 'aligned' then
+    if name == 'aligned' and (params < 1 or params & (params - 1) ~= 0 or params > 0x10000000) then
+      node:raisef("annotation 'aligned' takes a power of two up to 2^28, got %d", params)
+    end
     if objattr._type then
       objattr:update_fields()
     end
